@@ -10,17 +10,23 @@ package rules
 // provider's stored hashes, and what the repository holds per source.
 
 import (
+	"context"
 	"errors"
 	"fmt"
+	"net/http"
+	"net/http/httptest"
 	"os"
 	"path/filepath"
 	"sort"
 	"strings"
+	"sync"
 	"testing"
 
 	"github.com/fsnotify/fsnotify"
 	"github.com/rs/zerolog"
 
+	"github.com/dadrus/heimdall/internal/cache"
+	"github.com/dadrus/heimdall/internal/cache/memory"
 	"github.com/dadrus/heimdall/internal/config"
 	"github.com/dadrus/heimdall/internal/heimdall"
 	"github.com/dadrus/heimdall/internal/rules/mechanisms/authenticators"
@@ -29,7 +35,9 @@ import (
 	"github.com/dadrus/heimdall/internal/rules/mechanisms/errorhandlers"
 	"github.com/dadrus/heimdall/internal/rules/mechanisms/finalizers"
 	"github.com/dadrus/heimdall/internal/rules/mechanisms/subject"
+	"github.com/dadrus/heimdall/internal/rules/provider/cloudblob"
 	"github.com/dadrus/heimdall/internal/rules/provider/filesystem"
+	"github.com/dadrus/heimdall/internal/rules/provider/httpendpoint"
 	"github.com/dadrus/heimdall/internal/rules/provider/kubernetes"
 	"github.com/dadrus/heimdall/internal/zzverif/c18"
 	"github.com/dadrus/heimdall/internal/zzverif/vf"
@@ -418,3 +426,421 @@ func TestVerifC18K8sReal(t *testing.T) {
 		})
 	}
 }
+
+// ---- HTTP endpoint / cloud blob provider -> real processor -> real factory -> real repository, with
+//      cross-source route conflicts ------------------------------------------------------------------------
+//
+// Contents of one conflict class share a path: the repository refuses a rule set whose path is held by another
+// source, and accepts it later once that source is gone or changed.  Whether a valid content can be applied thus
+// depends on what is loaded; the providers must retry it at every poll (their stored hash is set only on success).
+// Observed per poll: the calls with the real processor's answers, the stored hashes, what the repository holds.
+
+type c18RPoll struct {
+	S   int    `json:"s"`
+	O   string `json:"o"` // valid, empty, invalid, gone, comm, internal (blob only)
+	Cid int    `json:"cid,omitempty"`
+}
+
+type c18RCase struct {
+	N    int        `json:"n"`
+	Rej  []int      `json:"rej"`
+	Hist []c18RPoll `json:"hist"`
+}
+
+type c18RStep struct {
+	Calls []c18.Call `json:"calls"`
+	Known []int      `json:"known"`
+	Repo  []int      `json:"repo"`
+}
+
+func c18RGen(r *vf.Rand, blob bool) c18RCase {
+	c := c18RCase{N: 2 + r.Intn(2), Rej: []int{}}
+
+	for cid := 1; cid <= 8; cid++ {
+		if r.Chance(10) {
+			c.Rej = append(c.Rej, cid)
+		}
+	}
+
+	n := 2 + r.Intn(22)
+	last := make([]*c18RPoll, c.N)
+
+	for i := 0; i < n; i++ {
+		s := r.Intn(c.N)
+
+		// polls mostly repeat: the content stays, what else is loaded changes
+		if last[s] != nil && r.Chance(45) {
+			c.Hist = append(c.Hist, *last[s])
+
+			continue
+		}
+
+		p := c18RPoll{S: s}
+
+		switch x := r.Intn(100); {
+		case x < 62:
+			p.O, p.Cid = "valid", 1+r.Intn(8)
+		case x < 72:
+			p.O = "empty"
+		case x < 80:
+			p.O = "invalid"
+		case x < 90:
+			p.O = "gone"
+		case x < 96 || !blob:
+			p.O = "comm"
+		default:
+			p.O = "internal"
+		}
+
+		last[s] = &p
+		c.Hist = append(c.Hist, p)
+	}
+
+	return c
+}
+
+func c18RCorpus() []c18RCase {
+	v := func(s, c int) c18RPoll { return c18RPoll{S: s, O: "valid", Cid: c} }
+
+	return []c18RCase{
+		// source 1's content competes with source 0's: rejected now, retried at every poll, loaded once source 0 is gone
+		{N: 2, Rej: []int{}, Hist: []c18RPoll{v(0, 1), v(1, 5), v(1, 5), {S: 0, O: "gone"}, v(1, 5), v(0, 1), v(0, 2)}},
+		// the same content served by two sources; an update that would compete keeps the previous version
+		{N: 3, Rej: []int{7}, Hist: []c18RPoll{
+			v(0, 3), v(1, 3), v(2, 4), v(2, 7), v(2, 8), v(0, 8), v(0, 6), v(1, 3), v(1, 3), {S: 2, O: "empty"}, v(0, 8),
+		}},
+	}
+}
+
+func c18RRepo(repo *repository, srcs []string) []int {
+	repo.knownRulesMutex.Lock()
+	defer repo.knownRulesMutex.Unlock()
+
+	out := make([]int, len(srcs))
+
+	for i, src := range srcs {
+		out[i] = -1
+
+		for _, r := range repo.knownRules {
+			if r.SrcID() != src {
+				continue
+			}
+
+			var cid int
+			if _, err := fmt.Sscanf(r.ID(), "r%d", &cid); err != nil || out[i] >= 0 {
+				cid = c18.UnknownCid
+			}
+
+			out[i] = cid
+		}
+	}
+
+	return out
+}
+
+func c18RNewReal(rejList []int, resolve func(string) (bool, int, int, bool)) (*c18.Recorder, *repository) {
+	rej := map[int]bool{}
+	for _, r := range rejList {
+		rej[r] = true
+	}
+
+	factory, err := NewRuleFactory(c18Catalogue{}, &config.Configuration{}, config.DecisionMode, zerolog.Nop())
+	if err != nil {
+		panic(err)
+	}
+
+	repo := newRepository(factory).(*repository) //nolint:forcetypeassert
+	rec := c18.NewRecorder(resolve, nil)
+	rec.Next = NewRuleSetProcessor(repo, factory)
+
+	for cid := 1; cid <= 8; cid++ {
+		rec.Register(cid, c18.RealBytes(cid, rej[cid]))
+	}
+
+	return rec, repo
+}
+
+func c18RBody(p c18RPoll, rej map[int]bool) []byte {
+	switch p.O {
+	case "valid":
+		return c18.RealBytes(p.Cid, rej[p.Cid])
+	case "invalid":
+		return []byte("version: \"1alpha4\"\nname: x\n")
+	default:
+		return []byte{}
+	}
+}
+
+func c18RHTTPRun(srv *httptest.Server, next map[string]c18RPoll, mu *sync.Mutex, idx int, c c18RCase) []c18RStep {
+	rej := map[int]bool{}
+	for _, r := range c.Rej {
+		rej[r] = true
+	}
+
+	path := func(s int) string { return fmt.Sprintf("/real%d/e%d", idx, s) }
+	url := func(s int) string { return srv.URL + path(s) }
+	srcs := make([]string, c.N)
+
+	for s := range srcs {
+		srcs[s] = "http_endpoint:" + url(s)
+	}
+
+	rec, repo := c18RNewReal(c.Rej, func(src string) (bool, int, int, bool) {
+		for s, x := range srcs {
+			if x == src {
+				return false, 0, s, true
+			}
+		}
+
+		return false, 0, 0, false
+	})
+
+	prov := httpendpoint.VerifNewProvider(rec)
+	cch, _ := memory.NewCache(nil, nil, nil)
+	ctx := cache.WithContext(context.Background(), cch)
+	steps := make([]c18RStep, 0, len(c.Hist))
+
+	for _, p := range c.Hist {
+		mu.Lock()
+		next[path(p.S)] = p
+		mu.Unlock()
+
+		prov.Poll(ctx, url(p.S)) //nolint:errcheck
+
+		st := c18RStep{Calls: rec.Take(), Known: make([]int, c.N), Repo: c18RRepo(repo, srcs)}
+		if st.Calls == nil {
+			st.Calls = []c18.Call{}
+		}
+
+		for s := 0; s < c.N; s++ {
+			st.Known[s] = -1
+
+			if h, ok := prov.Stored(url(s)); ok {
+				st.Known[s] = rec.CidOfHash(h)
+			}
+		}
+
+		steps = append(steps, st)
+	}
+
+	_ = rej
+
+	return steps
+}
+
+func c18RBlobRun(idx int, c c18RCase) []c18RStep {
+	rej := map[int]bool{}
+	for _, r := range c.Rej {
+		rej[r] = true
+	}
+
+	store := func(s int) string { return fmt.Sprintf("real%db%d", idx, s) }
+	ids := make([]string, c.N)
+	srcs := make([]string, c.N)
+
+	rec, repo := c18RNewReal(c.Rej, func(src string) (bool, int, int, bool) {
+		for s, x := range srcs {
+			if x != "" && x == src {
+				return false, s, 0, true
+			}
+		}
+
+		return false, 0, 0, false
+	})
+
+	prov := cloudblob.VerifNewProvider(rec)
+
+	for s := 0; s < c.N; s++ {
+		cloudblob.VerifSetStore(store(s), nil, "")
+
+		defer cloudblob.VerifDropStore(store(s))
+
+		ids[s] = fmt.Sprintf("verifblob://%s/", store(s))
+		srcs[s] = "k0.yaml@" + ids[s]
+	}
+
+	steps := make([]c18RStep, 0, len(c.Hist))
+
+	for _, p := range c.Hist {
+		blobs := map[string]cloudblob.VerifBlob{}
+		fail := ""
+
+		switch p.O {
+		case "valid", "empty", "invalid":
+			blobs["k0.yaml"] = cloudblob.VerifBlob{Data: c18RBody(p, rej), ContentType: "application/yaml"}
+		case "comm", "internal":
+			fail = p.O
+		}
+
+		cloudblob.VerifSetStore(store(p.S), blobs, fail)
+		prov.Poll(context.Background(), store(p.S)) //nolint:errcheck
+
+		st := c18RStep{Calls: rec.Take(), Known: make([]int, c.N), Repo: c18RRepo(repo, srcs)}
+		if st.Calls == nil {
+			st.Calls = []c18.Call{}
+		}
+
+		for s := 0; s < c.N; s++ {
+			st.Known[s] = -1
+
+			if h, ok := prov.Stored(store(s), "k0.yaml"); ok {
+				st.Known[s] = rec.CidOfHash(h)
+			}
+		}
+
+		steps = append(steps, st)
+	}
+
+	return steps
+}
+
+func c18RCoq(c c18RCase, steps []c18RStep, blob bool) string {
+	evs := make([]string, len(c.Hist))
+
+	for i, p := range c.Hist {
+		var e string
+
+		if blob {
+			switch p.O {
+			case "valid":
+				e = fmt.Sprintf("BList [(0, CV %d)]", p.Cid)
+			case "empty":
+				e = "BList [(0, CE)]"
+			case "invalid":
+				e = "BList [(0, CI)]"
+			case "gone":
+				e = "BList []"
+			case "comm":
+				e = "BFail BComm"
+			default:
+				e = "BFail BInternal"
+			}
+		} else {
+			switch p.O {
+			case "valid":
+				e = fmt.Sprintf("RH 200%%Z yaml (CV %d)", p.Cid)
+			case "empty":
+				e = "RH 200%Z yaml CE"
+			case "invalid":
+				e = "RH 200%Z yaml CI"
+			case "gone":
+				e = "RH 404%Z yaml CE"
+			default:
+				e = "RH 503%Z yaml CE"
+			}
+		}
+
+		evs[i] = fmt.Sprintf("(%d, %s)", p.S, e)
+	}
+
+	obs := make([]string, len(steps))
+	for i, s := range steps {
+		obs[i] = fmt.Sprintf("(rs %s %s %s)", vf.CoqListOf(s.Calls, c18.Call.Coq), c18OptInts(s.Known), c18OptInts(s.Repo))
+	}
+
+	ctor := "hrc"
+	if blob {
+		ctor = "brc"
+	}
+
+	return fmt.Sprintf("(%s %d %s [%s] [%s])", ctor, c.N, c18.CoqInts(c.Rej), strings.Join(evs, "; "), strings.Join(obs, "; "))
+}
+
+func c18RTags(c c18RCase, steps []c18RStep) ([]string, []c18.Step) {
+	tags := map[string]bool{}
+	cs := make([]c18.Step, len(steps))
+
+	for i, s := range steps {
+		cs[i] = c18.Step{Calls: s.Calls}
+		tags["poll:"+c.Hist[i].O] = true
+
+		for _, cl := range s.Calls {
+			tags[fmt.Sprintf("call:%s:%v", cl.Kind, cl.Ok)] = true
+
+			// a valid content of acceptable form that the repository refused: a route conflict
+			if !cl.Ok && cl.Kind != "D" {
+				tags["refused"] = true
+			}
+		}
+	}
+
+	out := make([]string, 0, len(tags))
+	for k := range tags {
+		out = append(out, k)
+	}
+
+	return out, cs
+}
+
+func c18RTest(t *testing.T, blob bool, seedOff uint64) {
+	w := vf.NewWriter()
+	defer w.Close()
+
+	var (
+		mu   sync.Mutex
+		next = map[string]c18RPoll{}
+		rejs = map[string]map[int]bool{}
+	)
+
+	srv := httptest.NewServer(http.HandlerFunc(func(wr http.ResponseWriter, r *http.Request) {
+		mu.Lock()
+		p, ok := next[r.URL.Path]
+		rej := rejs[strings.Split(r.URL.Path, "/")[1]]
+		mu.Unlock()
+
+		switch {
+		case !ok, p.O == "gone":
+			wr.WriteHeader(http.StatusNotFound)
+		case p.O == "comm":
+			wr.WriteHeader(http.StatusServiceUnavailable)
+		default:
+			wr.Header().Set("Content-Type", "application/yaml")
+			wr.Write(c18RBody(p, rej))
+		}
+	}))
+	defer srv.Close()
+
+	root := vf.NewRand(vf.Seed() + seedOff)
+	n := vf.N(150)
+	idx := 0
+
+	emit := func(stream string, c c18RCase) {
+		if vf.Want(idx) {
+			var steps []c18RStep
+
+			if blob {
+				steps = c18RBlobRun(idx, c)
+			} else {
+				rej := map[int]bool{}
+				for _, r := range c.Rej {
+					rej[r] = true
+				}
+
+				mu.Lock()
+				rejs[fmt.Sprintf("real%d", idx)] = rej
+				mu.Unlock()
+
+				steps = c18RHTTPRun(srv, next, &mu, idx, c)
+			}
+
+			tags, cs := c18RTags(c, steps)
+			w.Put(vf.Obs{
+				I: idx, Stream: stream, In: c, Out: steps, Coq: c18RCoq(c, steps, blob),
+				Nontrivial: c18.Nontrivial(cs), Tags: tags,
+			})
+		}
+
+		idx++
+	}
+
+	for _, c := range c18RCorpus() {
+		emit("corpus", c)
+	}
+
+	for i := 0; i < n; i++ {
+		emit("generated", c18RGen(root.Fork(uint64(i)), blob))
+	}
+}
+
+func TestVerifC18HTTPReal(t *testing.T) { c18RTest(t, false, 515151) }
+func TestVerifC18BlobReal(t *testing.T) { c18RTest(t, true, 616161) }
